@@ -65,8 +65,9 @@ _SAME_ATTR = ("data", "_data", "T", "real", "imag")
 
 
 class Degrees:
-    def __init__(self, prog=None, cls=None, depth=3):
-        self.prog, self.cls, self.depth = prog, cls, depth
+    def __init__(self, prog=None, cls=None, depth=3, func=None, linear_methods=()):
+        self.prog, self.cls, self.depth, self.func = prog, cls, depth, func
+        self.linear_methods = tuple(linear_methods)   # methods of held objects known to act linearly on their one state argument
         self.trace = []          # (node, degree) of expressions that turned N from non-N operands
 
     # ---- expressions
@@ -141,10 +142,11 @@ class Degrees:
                     d = mul(d, o)
                 return self._mark(e, d, ops)
             # method of the same class
-            if isinstance(e.func, ast.Attribute) and norm(e.func.value) == "self" and self.cls is not None \
-                    and fn in self.cls.methods and self.depth > 0:
-                callee = self.cls.methods[fn]
-                sub = Degrees(self.prog, self.cls, self.depth - 1)
+            if isinstance(e.func, ast.Attribute) and norm(e.func.value) == "self" and self.cls is not None and self.depth > 0 \
+                    and (fn in self.cls.methods or ("_%s%s" % (self.cls.name, fn)) in self.cls.methods
+                         or (fn.startswith("__") and fn in self.cls.methods)):
+                callee = self.cls.methods.get(fn) or self.cls.methods.get("_%s%s" % (self.cls.name, fn))
+                sub = Degrees(self.prog, self.cls, self.depth - 1, func=callee, linear_methods=self.linear_methods)
                 pn = [a.arg for a in callee.node.args.args][1:]
                 cenv = {p_: C for p_ in pn}
                 for p_, a in zip(pn, e.args):
@@ -155,9 +157,36 @@ class Degrees:
                 r = sub.run(callee.node, cenv)
                 self.trace.extend(sub.trace)
                 return r
+            # a class of the package called with the state: the object wraps what it is given (an evolution created from
+            # the initial state, a state object created from data)
+            if self.prog is not None and self.func is not None and isinstance(e.func, ast.Name):
+                try:
+                    tgt = self.prog.resolve_name(self.func.module, e.func.id, self.func)
+                except Exception:
+                    tgt = None
+                from .loader import ClassInfo, FuncInfo
+                if isinstance(tgt, ClassInfo):
+                    d = Z
+                    for a in args:
+                        d = join(d, a) if a != C else d
+                    return d if d != Z else C
+                if isinstance(tgt, FuncInfo) and self.depth > 0 and hasattr(tgt.node, "args"):
+                    sub = Degrees(self.prog, self.cls, self.depth - 1, func=tgt, linear_methods=self.linear_methods)
+                    pn = [a.arg for a in tgt.node.args.args]
+                    cenv = {p_: C for p_ in pn}
+                    for p_, a in zip(pn, e.args):
+                        cenv[p_] = self._ev(a, env)
+                    for k in e.keywords:
+                        if k.arg in cenv:
+                            cenv[k.arg] = self._ev(k.value, env)
+                    r = sub.run(tgt.node, cenv)
+                    self.trace.extend(sub.trace)
+                    return r
             allops = args + ([recv] if recv is not None else [])
             if all(a in (Z, C) for a in allops):
                 return C
+            if fn in self.linear_methods and recv in (C, None) and sum(1 for a in args if a == L) == 1 and N not in args:
+                return L
             return self._mark(e, N, allops)
         return C
 
@@ -173,6 +202,20 @@ class Degrees:
                 b_ = b_.value
             key = b_.id if isinstance(b_, ast.Name) else norm(b_)
             env[key] = join(env.get(key, C if not isinstance(b_, ast.Name) else C), d) if key in env else d
+            # an element stored into an attribute of a local object (pr.data[k, :] = psi) is stored into that object
+            r_ = b_
+            while isinstance(r_, (ast.Attribute, ast.Subscript)):
+                r_ = r_.value
+            if isinstance(r_, ast.Name) and r_ is not b_ and r_.id != "self" and isinstance(b_, ast.Attribute) \
+                    and b_.attr in ("data", "_data"):
+                env[r_.id] = join(env.get(r_.id, Z), d)
+        elif isinstance(t_, ast.Attribute) and t_.attr in ("data", "_data"):
+            # (flags and other records of a local object - pr.is_in_rwa = True - are not its values)
+            r_ = t_.value
+            while isinstance(r_, (ast.Attribute, ast.Subscript)):
+                r_ = r_.value
+            if isinstance(r_, ast.Name) and r_.id != "self":
+                env[r_.id] = join(env.get(r_.id, Z), d)
         elif isinstance(t_, (ast.Tuple, ast.List)):
             for x in t_.elts:
                 self.assign(x, d, env)
